@@ -257,7 +257,10 @@ def deterministic_paths(rep, svh, rng, gates, count, quick):
         text = stimtext.circuit_text(c06.transient_case(rng))
         ref = svh.request('refsample', [rng.choice([64, 128, 256])], text)
         rep.count(('c02-tree', text), nontrivial=True)
-        if ref[0][4:] != ref[1][5:]:
+        if len(ref) < 2 or ref[-1].startswith('ERR'):
+            rep.violation('ReferenceSampleTree::from_circuit_reference_sample', 'reject-valid', text,
+                          'computing the compressed reference sample failed: ' + (ref[-1] if ref else '')[:300])
+        elif ref[0][4:] != ref[1][5:]:
             rep.violation('ReferenceSampleTree::from_circuit_reference_sample', 'wrong-result', text,
                           'decompressed compressed reference sample differs from the directly simulated one', ref[0][4:], ref[1][5:])
     for k in range(count):
